@@ -50,7 +50,10 @@ pub fn drive()
         let mut rng = params.case_rng(case);
         let clock = match clock_sel.as_str() { "distinct" => Clock::Distinct, "coarse" => Clock::Coarse, _ => if case % 2 == 0 { Clock::Coarse } else { Clock::Distinct } };
         let cfg = cfg_for(params.thorough(), clock);
-        let graph = gen::any_graph(&mut rng, cfg.max_rules);
+        // a third of the histories use the graphs whose targets are verbatim copies or twins: there the same bytes move
+        // between paths through the cache, which is where a remembered (hash, mtime) pair can go stale
+        let travel = if rng.chance(2, 3) { "copies" } else { "twins" };
+        let graph = if rng.chance(1, 3) { gen::preset_graph(&mut rng, travel) } else { gen::any_graph(&mut rng, cfg.max_rules) };
         let mut rng_a = rng.fork();
         let mut rng_b = rng_a.clone();
         let mut a = HistRun::new(&mut rng_a, cfg.clone(), graph.clone());
